@@ -3,7 +3,7 @@ From Bfe Require Import lib.Val lib.Bytes model.Cors.
 Import ListNotations.
 Open Scope Z_scope.
 
-(* input : [rules req rsp handler]
+(* one request: [rules req rsp handler] (see the history format below)
      rules = [[match rule] ...]  (match: does the rule's condition hold for this request)
      rule = [origins:LB cred expose:LB methods:LB headers:LB maxage:(opt Z)]
      req  = [method:B originValues:LB acrmValues:LB hasRules]
@@ -48,50 +48,85 @@ Definition dec_mrule (v : val) : option (bool * rule) :=
   end.
 Definition dec_rules (v : val) : option rules :=
   match v with VL l => all_some (map dec_mrule l) | _ => None end.
-Definition dec_in (v : val) : option (rules * req * hdrs * Z) :=
+(* input : [op ...]   a history on one module instance, starting with an empty rule table
+     op = [0 conf]                      reload: conf = [[product rules] ...] written to a rule file and loaded through
+                                        the module's reload handler (loadRuleData)
+        | [1 product req rsp handler]   request of that product (req's 4th field is ignored)
+   output: one observation per op: [1] load ok | VErr 1 load rejected (table unchanged) | [ret hdrs] *)
+Definition dec_prules (v : val) : option (bytes * rules) :=
   match v with
-  | VL [r; q; h; VZ k] =>
-    match dec_rules r, dec_req q, dec_hdrs h with
-    | Some r', Some q', Some h' => if (k =? 0) || (k =? 1) then Some (r', q', h', k) else None
-    | _, _, _ => None
+  | VL [VB p; rs] => match dec_rules rs with Some r => Some (p, r) | None => None end
+  | _ => None
+  end.
+Inductive cop :=
+| OLoad (c : conf)
+| OReq (product : bytes) (q : req) (h : hdrs) (k : Z).
+Definition dec_op (v : val) : option cop :=
+  match v with
+  | VL [VZ 0; VL c] => match all_some (map dec_prules c) with Some c' => Some (OLoad c') | None => None end
+  | VL [VZ 1; VB p; q; h; VZ k] =>
+    match dec_req q, dec_hdrs h with
+    | Some q', Some h' => if (k =? 0) || (k =? 1) then Some (OReq p q' h' k) else None
+    | _, _ => None
     end
   | _ => None
   end.
+Definition dec_in (v : val) : option (list cop) :=
+  match v with VL l => all_some (map dec_op l) | _ => None end.
 Definition wf_C52 (i : val) : bool := match dec_in i with Some _ => true | None => false end.
 
+(* one request against rule list rs (q already says whether the product has rules) *)
+Definition step_run (rs : rules) (q : req) (h : hdrs) (k : Z) : val :=
+  if k =? 0 then VL [VZ 0; enc_hdrs (cors_handler rs q h)]
+  else match preflight_handler rs q with
+       | None => VL [VZ 0; VL []]
+       | Some h' => VL [VZ 1; enc_hdrs h']
+       end.
+Fixpoint run_ops (t : conf) (ops : list cop) : list val :=
+  match ops with
+  | [] => []
+  | OLoad c :: rest => (if conf_ok c then VL [VZ 1] else VErr 1) :: run_ops (table_load t c) rest
+  | OReq p q h k :: rest => let '(rs, q') := with_product t p q in step_run rs q' h k :: run_ops t rest
+  end.
 Definition run_C52 (i : val) : val :=
   match dec_in i with
   | None => VErr 0
-  | Some (r, q, h, k) =>
-    if negb (rules_ok r) then VErr 1
-    else if k =? 0 then VL [VZ 0; enc_hdrs (cors_handler r q h)]
-    else match preflight_handler r q with
-         | None => VL [VZ 0; VL []]
-         | Some h' => VL [VZ 1; enc_hdrs h']
-         end
+  | Some ops => VL (run_ops [] ops)
   end.
 Definition agree_C52 (i o : val) : bool := val_eqb (run_C52 i) o.
 
-(* THE PROPERTY on the implementation's observation: a rejected rule grants nothing; otherwise the header
-   after the callback relates to the header before it (the backend's header for corsHandler, the empty header of
-   the freshly created 204 response for the preflight callback) as cors_spec demands. *)
+(* THE PROPERTY on the implementation's observations.  The configuration in force at a request is the one of the LAST
+   successful reload before it (spec_table below follows the history independently of the model's table); the header
+   after the callback must relate to the header before it (the backend's header for corsHandler, the empty header of
+   the freshly created 204 response for the preflight callback) as cors_spec_rules demands for THAT configuration's
+   rule list of the request's product - in particular a product dropped by a reload is granted nothing any more. *)
+Definition step_prop (rs : rules) (q : req) (h : hdrs) (k : Z) (o : val) : bool :=
+  match o with
+  | VL [VZ ret; VL []] => (ret =? 0) && negb (k =? 0)
+  | VL [VZ ret; ho] =>
+    match dec_hdrs ho with
+    | None => false
+    | Some after =>
+      if k =? 0 then (ret =? 0) && cors_spec_rules rs q h after
+      else (ret =? 1) && is_preflight q && q_has_rules q
+           && match find_rule rs with Some _ => true | None => false end
+           && cors_spec_rules rs q empty_hdrs after
+    end
+  | _ => false
+  end.
+Fixpoint prop_ops (spec_table : conf) (ops : list cop) (obs : list val) : bool :=
+  match ops, obs with
+  | [], [] => true
+  | OLoad c :: rest, o :: ro =>
+    if conf_ok c then val_eqb o (VL [VZ 1]) && prop_ops c rest ro        (* accepted: c is in force from now on *)
+    else val_eqb o (VErr 1) && prop_ops spec_table rest ro               (* rejected: nothing changes *)
+  | OReq p q h k :: rest, o :: ro =>
+    (let '(rs, q') := with_product spec_table p q in step_prop rs q' h k o) && prop_ops spec_table rest ro
+  | _, _ => false
+  end.
 Definition prop_C52 (i o : val) : bool :=
-  match dec_in i with
-  | None => false
-  | Some (r, q, h, k) =>
-    if negb (rules_ok r) then val_eqb o (VErr 1)
-    else match o with
-         | VL [VZ ret; VL []] => (ret =? 0) && (k =? 1)
-         | VL [VZ ret; ho] =>
-           match dec_hdrs ho with
-           | None => false
-           | Some after =>
-             if k =? 0 then (ret =? 0) && cors_spec_rules r q h after
-             else (ret =? 1) && is_preflight q && q_has_rules q
-                  && match find_rule r with Some _ => true | None => false end
-                  && cors_spec_rules r q empty_hdrs after
-           end
-         | _ => false
-         end
+  match dec_in i, o with
+  | Some ops, VL obs => prop_ops [] ops obs
+  | _, _ => false
   end.
 Definition kf_C52 (i : val) : Z := 0.
